@@ -471,3 +471,47 @@ class TrackerRun:
     }
     never_returns = True
     ensures = dict(never_returns="False")
+
+
+# --- pool level: merging the per-component statuses ---------------------------------------------------------
+PT = "frequenz.sdk.microgrid._power_distributing._component_pool_status_tracker"
+ComponentStatusT = Rec(f"{CS}._component_status:ComponentStatus", component_id=Int, value=StatusT)
+PoolStatusObjT = Obj(f"{CS}._component_status:ComponentPoolStatus", working=SetOf(Int), uncertain=SetOf(Int))
+PoolSenderT = ExtObj("frequenz.channels.Sender", methods=dict(send=dict(
+    is_async=True, effects={"n_sent": "self.n_sent + 1"})), n_sent=Int)
+PoolTrackerT = Obj(f"{PT}:ComponentPoolStatusTracker", _current_status=PoolStatusObjT,
+                   _merged_status_receiver=ExtObj("frequenz.channels.Receiver", stream=ComponentStatusT),
+                   _component_status_sender=PoolSenderT)
+
+
+@contract(f"{PT}:ComponentPoolStatusTracker._update_status")
+class PoolUpdateStatus:
+    """Every component status message puts that component into exactly the set its status names (WORKING ->
+    working only, UNCERTAIN -> uncertain only, NOT_WORKING -> neither), leaves every other component where it
+    was, keeps the two sets disjoint, and the pool status is published after every message."""
+    self_shape = PoolTrackerT
+    ghost = dict(g=Int)          # an arbitrary component id, to state "nobody else moves"
+    modifies = ["self._current_status", "self._component_status_sender", "self._merged_status_receiver"]
+    requires = dict(disjoint="disjoint(self._current_status)")
+    loops = {"async for status in self._merged_status_receiver": dict(
+        havoc_fields={"self._current_status.working": SetOf(Int), "self._current_status.uncertain": SetOf(Int),
+                      "self._component_status_sender.n_sent": Int, "self._component_status_sender.calls": OpaqueT("log"),
+                      "self._component_status_sender.results": OpaqueT("log")},
+        invariant=dict(disjoint="disjoint(self._current_status)"),
+        ghost_pre=["pre_w = g in self._current_status.working", "pre_u = g in self._current_status.uncertain",
+                   "pre_n = self._component_status_sender.n_sent"],
+        step=dict(
+            reported_component_classified="(status.component_id in self._current_status.working)"
+                                          " == (status.value == ComponentStatusEnum.WORKING)"
+                                          " and (status.component_id in self._current_status.uncertain)"
+                                          " == (status.value == ComponentStatusEnum.UNCERTAIN)",
+            others_untouched="implies(g != status.component_id, (g in self._current_status.working) == pre_w"
+                             " and (g in self._current_status.uncertain) == pre_u)",
+            published_after_every_message="self._component_status_sender.n_sent == pre_n + 1",
+        ))}
+    ensures = dict(disjoint="disjoint(self._current_status)")
+
+
+def disjoint(st):
+    """No component is both working and uncertain."""
+    return len(st.working.intersection(st.uncertain)) == 0
